@@ -14,6 +14,8 @@ def run_suite(name, suite, seed, extra=None):
 
 
 def event_key(e, code):
+    if e["ev"] == "asmbig":
+        return "asmbig:n%d:%s/%s" % (e["n"], e["wst"], e["pst"])
     if e["ev"] == "asm":
         st = "%s/%s" % (e["wst"], e["pst"])
         err = e.get("err") or []
@@ -31,6 +33,9 @@ def event_key(e, code):
 
 
 def replay_obj(e):
+    if e["ev"] == "asmbig":
+        return {"component": "assembler+parser", "input": {"big": {"n": e["n"], "rid": e["rid"], "member": e["member"]}}, "observed": {k: e[k] for k in ("wst", "words_rle", "pst", "parsed", "err")},
+                "expected": "words = EncodeInst(OpTypeStruct %rid with n members) and the same instruction parsed back (ParserTrace!BigCode)", "spec_ref": "ParserTrace!BigCode"}
     if e["ev"] == "asm":
         return {"component": "assembler+parser", "input": {"inst": e["inst"], "ctx": e["ctx"]}, "observed": {k: e[k] for k in ("wst", "words", "pst", "parsed", "err")},
                 "expected": "words = Assembler!EncodeInst(inst) and parsed = inst", "spec_ref": "ParserTrace!AsmCode"}
@@ -61,7 +66,11 @@ def validate(rep, trace, name, mask):
 def replay_parse(rep, replay, mask, name):
     r = json.load(open(replay))
     inp = r["input"]
-    if "words" in inp:
+    if "big" in inp:
+        hp = os.path.join(BUILD, name + ".replay.hist")
+        open(hp, "w").write(json.dumps(inp) + "\n")
+        trace, _ = run_suite(name + "_replay", "big-replay", 0, ["--histories", hp])
+    elif "words" in inp:
         hp = os.path.join(BUILD, name + ".replay.hist")
         open(hp, "w").write(json.dumps(inp) + "\n")
         trace, _ = run_suite(name + "_replay", "words", 0, ["--histories", hp])
